@@ -69,7 +69,7 @@ ColonAt(l) == LET c == {k \in 1..(Len(l) - 1) : l[k] = 58 /\ l[k + 1] = 32} IN I
 HeaderPair(l) == LET c == ColonAt(l) IN <<SubSeq(l, 1, c - 1), SubSeq(l, c + 2, Len(l))>>
 
 NotArmor == [ok |-> FALSE, label |-> <<>>, headers |-> <<>>, payload |-> <<>>, hascrc |-> FALSE, crc |-> <<>>, crcok |-> FALSE,
-             maxline |-> 0, tailok |-> FALSE, why |-> "no armor"]
+             maxline |-> 0, tailok |-> FALSE, why |-> "no armor", endline |-> 0]
 \* Decode the first armor block of text t whose BEGIN line is at or after line `from` and is not a
 \* cleartext "SIGNED MESSAGE" header.
 DearmorFrom(t, from) ==
@@ -99,8 +99,13 @@ DearmorFrom(t, from) ==
            payload |-> payload, hascrc |-> crcs # {}, crc |-> crc,
            crcok |-> crcs # {} /\ crc = CRCOctets(payload),
            maxline |-> IF bodylines = <<>> THEN 0 ELSE FoldLeft(LAMBDA m, l : MaxOf(m, Len(l)), 0, bodylines),
-           tailok |-> EndLabel(ls[en]) = BeginLabel(ls[b]), why |-> "ok"]
+           tailok |-> EndLabel(ls[en]) = BeginLabel(ls[b]), why |-> "ok", endline |-> en]
 Dearmor(t) == DearmorFrom(t, 1)
+\* all armor blocks of a text, in order (several keys, each in a block of its own, one after the other)
+RECURSIVE BlocksFrom(_, _)
+BlocksFrom(t, from) == LET r == DearmorFrom(t, from) IN IF ~r.ok THEN <<>> ELSE <<r>> \o BlocksFrom(t, r.endline + 1)
+AllBlocks(t) == BlocksFrom(t, 1)
+AllPayloads(t) == LET bs == AllBlocks(t) IN FlattenSeq([k \in 1..Len(bs) |-> bs[k].payload])
 
 \* ---- writing (used for the design-level round trip) ---------------------------------------------
 WrapLines(s, w) == [j \in 1..((Len(s) + w - 1) \div w) |-> SubSeq(s, (j - 1) * w + 1, MinOf(j * w, Len(s)))]
